@@ -78,23 +78,63 @@ Proof.
 Qed.
 Print Assumptions C04_live_refuted.
 
-(** Outside [wf]: [count_values("__name__", foo) by (job)] re-creates the metric name the analyser excluded
-    (known finding C04-count-values-name): the general clause fails. *)
+(** [count_values("__name__", foo) by (job)] re-creates the metric name.  Before fix 392e95a the analyser excluded
+    it (false "non-existent label" report, the former known finding C04-count-values-name, then stated here as a
+    refutation); now the expression is inside [wf], so [C04_sound] covers it, and the former counterexample is
+    consistent with the analyser's branch. *)
 Definition ex_cvn : expr := EAgg ACountValues false ["job"] (Some (EStr "__name__")) ex_foo.
 
-Theorem C04_count_values_name_refuted : exists fmod fpow db e R ls,
-  Sem db e (RVec R) /\ In ls R /\
-  forall s, In s (walk_node fmod fpow e) -> exists l, has ls l = true /\ can_have_label s l = false.
+Theorem C04_count_values_name : forall fmod fpow,
+  wf ex_cvn = true /\
+  Sem ex_db ex_cvn (RVec [[("__name__", "1"); ("job", "j")]]) /\
+  (forall db R ls, Sem db ex_cvn (RVec R) -> In ls R ->
+     exists s, In s (walk_node fmod fpow ex_cvn) /\ forall l, can_have_label s l = false -> has ls l = false) /\
+  (forall s, In s (walk_node fmod fpow ex_cvn) -> can_have_label s "__name__" = true).
 Proof.
-  exists (fun _ _ => nan), (fun _ _ => nan), ex_db, ex_cvn, [[("__name__", "1"); ("job", "j")]], [("__name__", "1"); ("job", "j")].
-  split.
+  intros fmod fpow. split; [reflexivity|]. split.
   - apply (SemNode ex_db ex_cvn [RStr; RVec ex_db] (RVec [[("__name__", "1"); ("job", "j")]])); [|vm_compute; reflexivity].
     constructor; [|constructor; [apply sem_ex_foo | constructor]].
     apply (SemNode ex_db (EStr "__name__") [] RStr); [constructor | reflexivity].
-  - split; [left; reflexivity|]. intros s Hin. vm_compute in Hin. destruct Hin as [<-|[]].
-    exists "__name__". split; reflexivity.
+  - split.
+    + intros db R ls HS Hin. exact (C04_sound fmod fpow db ex_cvn R ls eq_refl HS Hin).
+    + intros s Hin. vm_compute in Hin. destruct Hin as [<-|[]]. reflexivity.
 Qed.
-Print Assumptions C04_count_values_name_refuted.
+Print Assumptions C04_count_values_name.
+
+(** fix f3c0f95: whatever the analyser concluded about the operand, no result branch of absent()/absent_over_time()
+    is dead or "always returning" (the call returns a series exactly when its operand returns nothing).  The
+    former known finding C04-live-absent-of-dead-K8 ([absent(foo unless on() vector(1))] returned [{}] while its
+    only branch was dead) is thereby closed for every operand. *)
+Theorem C04_absent_not_dead : forall fmod fpow f ats args s,
+  sem_class f = SCAbsent -> In s (walk_node fmod fpow (ECall f ats args)) ->
+  s_dead s = false /\ s_always s = false /\ s_dead_label s = None.
+Proof.
+  intros fmod fpow f ats args s Hc Hin.
+  assert (Hne : sem_class f <> SCNone) by (rewrite Hc; discriminate).
+  pose proof (compat_of f Hne) as Hk. unfold compat in Hk. rewrite Hc in Hk. apply String.eqb_eq in Hk.
+  apply walk_call_In in Hin. destruct Hin as [es [-> _]]. rewrite call_src_unfold.
+  apply ppf_absent_flags. exact Hk.
+Qed.
+Print Assumptions C04_absent_not_dead.
+
+Definition ex_absent_dead : expr :=
+  ECall "absent" [VVector]
+    [EBin OUnless false (Some {| vm_card := ManyToMany; vm_on := true; vm_labels := []; vm_include := [] |}) ex_foo ex_vec1].
+
+Example C04_absent_of_dead_live :
+  wf ex_absent_dead = true /\
+  Sem ex_db ex_absent_dead (RVec [[]]) /\
+  map s_dead (walk_node (fun _ _ => nan) (fun _ _ => nan) ex_absent_dead) = [false] /\
+  forallb s_dead (walk_node (fun _ _ => nan) (fun _ _ => nan)
+                    (match ex_absent_dead with ECall _ _ [a] => a | _ => ex_foo end)) = true.
+Proof.
+  split; [reflexivity|]. split.
+  - apply (SemNode ex_db ex_absent_dead [RVec []] (RVec [[]])); [|vm_compute; reflexivity].
+    constructor; [|constructor].
+    eapply (SemNode ex_db _ [RVec ex_db; RVec [[]]] (RVec [])); [|vm_compute; reflexivity].
+    constructor; [apply sem_ex_foo|]. constructor; [apply sem_ex_vec1 | constructor].
+  - split; vm_compute; reflexivity.
+Qed.
 
 (** Non-vacuity: the premises are satisfiable with a non-empty result, and the analyser really excludes a label:
     [sum by (job) (foo)] on a database holding one foo series returns {job="j"}; label "instance" is reported. *)
